@@ -8,7 +8,11 @@
 \* group.  Per joint: actuatorfrcrange (optional).  Options: clampctrl and actuation flags, disabled actuator groups.
 \*
 \* One evaluation runs the stages of the implementation, one action each:
-\*     ClampCtrl -> ActDot -> Force -> ClampForce -> Transmit -> ClampJoint -> Advance (activation update of mj_step)
+\*     ClampCtrl -> ActDot -> Force -> ClampForce -> Transmit -> GravComp -> ClampJoint -> Advance (activation update)
+\* Gravity compensation: a body with gravcomp c in gravity g (along the slide axis) receives the force - m g c; it is a
+\* passive force unless the joint has actuatorgravcomp, in which case it is ADDED TO qfrc_actuator BEFORE the joint-level
+\* clamp ("the total actuation force applied on a joint, including gravity compensation, is guaranteed to not exceed
+\* the specified limits").
 \* and `ev` of the last stage carries the whole case with the expected actuator_force, qfrc_actuator, act_dot and next act:
 \* the oracle of the replay into mj_step.
 \* Laws stated as invariants: controls inside ctrlrange unless clamping is disabled; forces inside forcerange; joint
@@ -23,6 +27,7 @@ CONSTANTS NJs, NAs,            \* numbers of joints / actuators to choose from
           Hs,                  \* timestep
           Clamps, Actuations,  \* subsets of BOOLEAN: clampctrl enabled, actuation enabled
           DisSets,             \* set of sets of disabled groups (groups are 0..2)
+          Gravs,               \* gravity component along the slide axis (rationals; bodies have mass 1)
           Variant              \* "doc"; anything else = deliberately wrong law (negative control)
 
 R(n, d) == Rt(n, d)
@@ -57,10 +62,15 @@ Preset(nm) ==
 AllPresets == {"motor", "motorcl", "motorfl", "motorfpos", "neggear", "position", "velocity", "affine", "integ", "intvel",
                "filter", "filterearly", "muscle", "musclefl"}
 PresetOf == [nm \in AllPresets |-> Preset(nm)]
-JPreset(nm) == CASE nm = "free" -> [lim |-> FALSE, lo |-> Zero, hi |-> Zero]
-                 [] nm = "sym"  -> [lim |-> TRUE, lo |-> RI(-1), hi |-> One]
-                 [] nm = "asym" -> [lim |-> TRUE, lo |-> R(-1, 2), hi |-> RI(3)]
-                 [] nm = "pos"  -> [lim |-> TRUE, lo |-> R(1, 4), hi |-> RI(2)]
+\* joint presets: actuatorfrcrange, gravcomp of the joint's body, actuatorgravcomp flag
+JPreset(nm) == CASE nm = "free" -> [lim |-> FALSE, lo |-> Zero, hi |-> Zero, gc |-> Zero, agc |-> FALSE]
+                 [] nm = "sym"  -> [lim |-> TRUE, lo |-> RI(-1), hi |-> One, gc |-> Zero, agc |-> FALSE]
+                 [] nm = "asym" -> [lim |-> TRUE, lo |-> R(-1, 2), hi |-> RI(3), gc |-> Zero, agc |-> FALSE]
+                 [] nm = "pos"  -> [lim |-> TRUE, lo |-> R(1, 4), hi |-> RI(2), gc |-> Zero, agc |-> FALSE]
+                 [] nm = "asymgc"  -> [lim |-> TRUE, lo |-> R(-1, 2), hi |-> RI(3), gc |-> One, agc |-> TRUE]
+                 [] nm = "symgc"   -> [lim |-> TRUE, lo |-> RI(-1), hi |-> One, gc |-> R(3, 2), agc |-> TRUE]
+                 [] nm = "freegc"  -> [lim |-> FALSE, lo |-> Zero, hi |-> Zero, gc |-> R(1, 2), agc |-> TRUE]
+                 [] nm = "asympas" -> [lim |-> TRUE, lo |-> R(-1, 2), hi |-> RI(3), gc |-> One, agc |-> FALSE]
 Stateful(a) == a.dyn # "none"
 
 VARIABLES cfg,    \* [na, nj, acts : sequence of [pre, jnt], jl : sequence of joint preset names, h, clamp, actuation, dis]
@@ -79,7 +89,8 @@ Disabled(i) == A(i).group \in cfg.dis
 ZeroSeq(m) == [i \in 1..m |-> Zero]
 
 \* ---- setup: compile a model, write options, write state -----------------------------------------------------
-Init == /\ cfg = [na |-> 0, nj |-> 0, acts |-> << >>, jl |-> << >>, h |-> One, clamp |-> TRUE, actuation |-> TRUE, dis |-> {}]
+Init == /\ cfg = [na |-> 0, nj |-> 0, acts |-> << >>, jl |-> << >>, h |-> One, clamp |-> TRUE, actuation |-> TRUE, dis |-> {},
+                  grav |-> Zero]
         /\ st = [q |-> << >>, v |-> << >>, w |-> << >>, u |-> << >>]
         /\ uc = << >> /\ wdot = << >> /\ frc = << >> /\ qf = << >> /\ w2 = << >>
         /\ pc = "layout" /\ k = 0 /\ ev = [op |-> "init"]
@@ -99,8 +110,8 @@ PickJoint == /\ pc = "joint"
              /\ IF k < cfg.nj THEN k' = k + 1 /\ pc' = pc ELSE k' = 1 /\ pc' = "options"
              /\ ev' = [op |-> "joint"] /\ Keep
 PickOptions == /\ pc = "options"
-               /\ \E h \in Hs, cl \in Clamps, ac \in Actuations, ds \in DisSets :
-                    cfg' = [cfg EXCEPT !.h = h, !.clamp = cl, !.actuation = ac, !.dis = ds]
+               /\ \E h \in Hs, cl \in Clamps, ac \in Actuations, ds \in DisSets, g \in Gravs :
+                    cfg' = [cfg EXCEPT !.h = h, !.clamp = cl, !.actuation = ac, !.dis = ds, !.grav = g]
                /\ pc' = "input" /\ k' = 1 /\ ev' = [op |-> "options"] /\ Keep /\ UNCHANGED st
 PickInput == /\ pc = "input"
              /\ \E u \in Us, w \in (IF Stateful(A(k)) THEN Ws ELSE {Zero}) :
@@ -188,10 +199,20 @@ SumOver(F(_), S) == IF S = {} THEN Zero ELSE LET i == CHOOSE z \in S : TRUE IN A
 Transmit == /\ pc = "transmit"
             /\ qf' = [j \in Jnts |-> LET T(i) == Mul(IF Variant = "gearsquared" THEN Sq(A(i).gear) ELSE A(i).gear, frc[i])
                                      IN SumOver(T, {i \in Acts : J(i) = j})]
-            /\ pc' = "jclamp" /\ ev' = [op |-> "transmit", pre |-> qf'] /\ UNCHANGED <<cfg, st, uc, wdot, frc, w2, k>>
+            /\ pc' = "gravcomp" /\ ev' = [op |-> "transmit", pre |-> qf'] /\ UNCHANGED <<cfg, st, uc, wdot, frc, w2, k>>
+
+\* gravity compensation force on the dof of joint j (unit mass, gravity along the joint axis)
+GravCompOf(j) == Neg(Mul(cfg.grav, JL(j).gc))
+\* actuator-level gravity compensation: joints with actuatorgravcomp receive it through qfrc_actuator
+GravComp == /\ pc = "gravcomp"
+            /\ qf' = [j \in Jnts |-> IF cfg.actuation /\ JL(j).agc /\ Variant # "clampbeforegravcomp"
+                                     THEN Add(qf[j], GravCompOf(j)) ELSE qf[j]]
+            /\ pc' = "jclamp" /\ ev' = [op |-> "gravcomp"] /\ UNCHANGED <<cfg, st, uc, wdot, frc, w2, k>>
 
 ClampJoint == /\ pc = "jclamp"
-              /\ qf' = [j \in Jnts |-> IF cfg.actuation /\ JL(j).lim THEN Clip(qf[j], JL(j).lo, JL(j).hi) ELSE qf[j]]
+              /\ qf' = [j \in Jnts |-> LET c == IF cfg.actuation /\ JL(j).lim THEN Clip(qf[j], JL(j).lo, JL(j).hi) ELSE qf[j] IN
+                                       IF cfg.actuation /\ JL(j).agc /\ Variant = "clampbeforegravcomp"
+                                       THEN Add(c, GravCompOf(j)) ELSE c]
               /\ pc' = "advance" /\ ev' = [op |-> "jclamp", pre |-> qf] /\ UNCHANGED <<cfg, st, uc, wdot, frc, w2, k>>
 
 Advance == /\ pc = "advance"
@@ -199,44 +220,50 @@ Advance == /\ pc = "advance"
                                     ELSE NextAct(i, IF Disabled(i) THEN Zero ELSE wdot[i])]
            /\ pc' = "done"
            /\ ev' = [op |-> "step", cfg |-> cfg, acts |-> [i \in Acts |-> A(i)], jl |-> [j \in Jnts |-> JL(j)],
-                     st |-> st, frc |-> frc, qf |-> qf, wdot |-> wdot, w2 |-> w2']
+                     st |-> st, frc |-> frc, qf |-> qf, wdot |-> wdot, w2 |-> w2',
+                     qgc |-> [j \in Jnts |-> GravCompOf(j)],                                  \* qfrc_gravcomp
+                     qpas |-> [j \in Jnts |-> IF JL(j).agc THEN Zero ELSE GravCompOf(j)]]      \* qfrc_passive
            /\ UNCHANGED <<cfg, st, uc, wdot, frc, qf, k>>
 
 Next == PickLayout \/ PickActuator \/ PickJoint \/ PickOptions \/ PickInput
-        \/ ClampCtrl \/ ActDot \/ Force \/ ClampForce \/ Transmit \/ ClampJoint \/ Advance
+        \/ ClampCtrl \/ ActDot \/ Force \/ ClampForce \/ Transmit \/ GravComp \/ ClampJoint \/ Advance
 Spec == Init /\ [][Next]_vars
 
 \* ---- properties -------------------------------------------------------------------------------------------
 After(stages) == pc \in stages
 InRange(x, lo, hi) == Le(lo, x) /\ Le(x, hi)
 TypeOK == /\ pc \in {"layout", "actuator", "joint", "options", "input", "clamp", "actdot", "force", "fclamp", "transmit",
-                     "jclamp", "advance", "done"}
+                     "gravcomp", "jclamp", "advance", "done"}
           /\ Len(cfg.acts) <= cfg.na /\ Len(cfg.jl) <= cfg.nj
 \* controls are clamped to ctrlrange unless clamping is disabled (and otherwise untouched)
-CtrlClamped == After({"actdot", "force", "fclamp", "transmit", "jclamp", "advance", "done"}) =>
+CtrlClamped == After({"actdot", "force", "fclamp", "transmit", "gravcomp", "jclamp", "advance", "done"}) =>
                  \A i \in Acts : IF cfg.clamp /\ A(i).clim
                                  THEN InRange(uc[i], A(i).clo, A(i).chi) /\ (InRange(st.u[i], A(i).clo, A(i).chi) => uc[i] = st.u[i])
                                  ELSE uc[i] = st.u[i]
 \* actuator forces are inside forcerange
-ForceInRange == After({"transmit", "jclamp", "advance", "done"}) =>
+ForceInRange == After({"transmit", "gravcomp", "jclamp", "advance", "done"}) =>
                   \A i \in Acts : A(i).flim /\ cfg.actuation /\ ~Disabled(i) => InRange(frc[i], A(i).flo, A(i).fhi)
 \* joint-level force range
 JointInRange == After({"advance", "done"}) =>
                   \A j \in Jnts : JL(j).lim /\ cfg.actuation => InRange(qf[j], JL(j).lo, JL(j).hi)
 \* disabled groups and disabled actuation produce no force, and freeze the activation (up to the actrange clamp)
-DisabledNoForce == After({"fclamp", "transmit", "jclamp", "advance", "done"}) =>
+DisabledNoForce == After({"fclamp", "transmit", "gravcomp", "jclamp", "advance", "done"}) =>
                      \A i \in Acts : (Disabled(i) \/ ~cfg.actuation) => frc[i] = Zero
 ActuationOffNoJointForce == After({"jclamp", "advance", "done"}) /\ ~cfg.actuation => \A j \in Jnts : qf[j] = Zero
 DisabledFrozen == pc = "done" => \A i \in Acts :
                      /\ (~cfg.actuation => w2[i] = st.w[i])
                      /\ (Disabled(i) /\ Stateful(A(i)) /\ cfg.actuation => w2[i] = NextAct(i, Zero))
 \* qfrc_actuator = moment' * force, stated as the power balance it implies (before the joint clamp)
-PowerBalance == pc = "jclamp" =>
+PowerBalance == pc = "gravcomp" =>
                   LET PJ(j) == Mul(qf[j], st.v[j])
                       PA(i) == Mul(frc[i], Mul(A(i).gear, st.v[J(i)])) IN
                   SumOver(PJ, Jnts) = SumOver(PA, Acts)
+\* with actuatorgravcomp the joint force before the clamp is the transmitted force plus the compensation, and the
+\* compensation is then not a passive force (it is never counted twice)
+GravCompRouted == pc = "jclamp" /\ ev.op = "gravcomp" /\ cfg.actuation =>
+                    \A j \in Jnts : (JL(j).agc /\ (\A i \in Acts : J(i) # j)) => qf[j] = GravCompOf(j)
 \* a joint nobody drives gets no actuator force
-Undriven == After({"jclamp"}) => \A j \in Jnts : (\A i \in Acts : J(i) # j) => qf[j] = Zero
+Undriven == After({"gravcomp"}) => \A j \in Jnts : (\A i \in Acts : J(i) # j) => qf[j] = Zero
 \* activations stay within actrange
 ActInRange == pc = "done" => \A i \in Acts : A(i).alim => InRange(w2[i], A(i).alo, A(i).ahi)
 \* the joint clamp changes a joint force only when it is outside the range
@@ -265,7 +292,9 @@ MuscleCurveOK == \A nm \in {"muscle", "musclefl"} :
 ViewNoEv == <<cfg, st, uc, wdot, frc, qf, w2, pc, k>>
 \* ---- lattices for the configurations ---------------------------------------------------------------------------
 L_One == {1}                 L_OneTwo == {1, 2}          L_Two == {2}            L_TwoThree == {2, 3}
-L_JFree == {"free"}          L_JAll == {"free", "sym", "asym", "pos"}             L_JQ == {"free", "asym"}
+L_JFree == {"free"}          L_JAll == {"free", "sym", "asym", "pos", "asymgc", "symgc", "freegc", "asympas"}
+L_JQ == {"free", "asym", "asymgc"}               L_JP == {"free", "asym"}       L_JG == {"asymgc", "asympas"}
+L_G0 == {Zero}               L_G1 == {RI(-2)}            L_GX == {Zero, RI(-2), RI(3)}
 L_U == {RI(-2), R(-1, 2), R(1, 4), RI(2)}               L_UX == {RI(-3), RI(-2), RI(-1), R(-1, 2), Zero, R(1, 4), R(1, 2), One, RI(2)}
 L_W == {R(-1, 2), R(1, 4)}   L_WX == {RI(-1), R(-1, 2), Zero, R(1, 4), R(1, 2), R(3, 4), One}
 L_Q1 == {R(1, 2)}            L_V1 == {R(-1, 2)}
